@@ -18,9 +18,9 @@ import refmpq
 import sup
 
 RULE = ("direction A: full product of the published-format subset (V1/V2 x sector shift {0,1,3,5} x {none,zlib,bzip2} x {plain,encrypted,encrypted+fix-key} x listfile on/off, "
-        "x file-set repetitions in thorough) built by ArchiveBuilder with sector-straddling file sets plus odd-length incompressible files and a path-less name; every archive is "
+        "x file-set repetitions in thorough) built by ArchiveBuilder with sector-straddling file sets plus odd-length incompressible files, files at the compressor's break-even length and a path-less name; every archive is "
         "parsed and fully extracted by the independent reference reader and 9 header fields are compared. direction B: the reference writer emits archives over the same subset "
-        "(+ hash table sizes 4..64 with deleted markers in probe chains, optional junk/user-data prefix, single-unit option) which Archive reads back under several spellings. "
+        "(+ hash table sizes 4..64 with deleted markers in probe chains, optional junk/user-data prefix, single-unit option, zlib streams with default / StormLib unit-sized window / varied level+window, bzip2 levels) which Archive reads back under several spellings. "
         "distinct = distinct (direction, configuration class) pairs compared.")
 ASSUME = ["trusted base: lib/refmpq.py, an independent reading of the public MPQ format (The MoPaQ Archive Format / Zezula) — not StormLib itself",
           "subset: V1/V2, classic tables, none/zlib/bzip2, no sector CRC, no attributes",
@@ -150,12 +150,17 @@ def gen_ref_archive(args):
     ss = 512 << shift
     sizes = [0, 1, 3, 5, ss - 1, ss, ss + 1, 3 * ss + 7, ss + 2, ss + 3, 6, 7, 2 * ss, ss + 4, 3 * ss + 8, 4, 8]
     files, mf = [], []
+    zstats = {}
     for i, n in enumerate(sizes):
         cls = CLASSES[(i + k) % len(CLASSES)] if i < 12 else "random"
         data = _content(rng, cls, n)
         comp = (rng.choice(["Dir", "World\\Maps", "a", "Interface\\Glue\\XML"]) if i % 3 else "") if i < 12 else ("" if i % 2 == 0 else "Dir")
         name = (comp + "\\" if comp else "") + f"File{k}_{i}.{rng.choice(['blp', 'M2', 'txt'])}"
-        files.append(refmpq.RefFile(name, data, method, encm > 0, encm == 2, single and n > 0))
+        # stream parameters other writers use: StormLib sizes the deflate window after the unit (header 0x48..0x68, not 0x78);
+        # other levels change the FLEVEL bits / the bzip2 block-size digit
+        zp = [None, ("stormlib",), (rng.choice([1, 9]), rng.choice([9, 10, 12, 14, 15]))][(i + k // 3) % 3]
+        zstats[str(zp)] = zstats.get(str(zp), 0) + 1
+        files.append(refmpq.RefFile(name, data, method, encm > 0, encm == 2, single and n > 0, zparams=zp))
         p = os.path.join(outdir, f"b-{k}.f{i}")
         with open(p, "wb") as fh:
             fh.write(data)
@@ -183,11 +188,11 @@ def gen_ref_archive(args):
         fh.write(arc)
     shape = f"v{version}|prefix{'-userdata' if user_data else ('-junk' if prefix else '-none')}"
     opts = {"version": version, "shift": shift, "method": method, "enc": encm, "single_unit": single, "prefix": prefix, "user_data": user_data,
-            "deleted_probes": info["deleted_planted"], "hash_size": hs, "listfile": listfile}
+            "deleted_probes": info["deleted_planted"], "hash_size": hs, "listfile": listfile, "zparams": zstats}
     man = {"idx": k, "class": f"B|v{version}|s{shift}|m{method}|e{encm}|su{int(single)}|p{prefix}|ud{int(user_data)}", "archive": ap, "files": mf, "opts": opts, "shape": shape}
     with open(os.path.join(outdir, f"b-{k}.json"), "w") as fh:
         json.dump(man, fh)
-    return k
+    return k, (zstats if method == 0x02 else {})
 
 
 def run(tier, seed, scratch, t0):
@@ -214,7 +219,9 @@ def run(tier, seed, scratch, t0):
     os.makedirs(bdir)
     nb = 1500 if tier == "thorough" else 100
     with ProcessPoolExecutor(max_workers=sup.NCPU) as ex:
-        list(ex.map(gen_ref_archive, [(k, seed, bdir) for k in range(nb)], chunksize=8))
+        for _k, zs in ex.map(gen_ref_archive, [(k, seed, bdir) for k in range(nb)], chunksize=8):
+            for name, v in zs.items():
+                res.add_counter("b_zlib_files_with_stream_params|" + ("default" if name == "None" else "stormlib-window" if "stormlib" in name else "level-and-window-varied"), v)
     res.add_counter("b_archives_written_by_reference", nb)
     sup.run_workers(res, binpath, ["--mode", "read", "--dir", bdir], tier, seed, scratch, nshards=16, case_timeout=120, label="B")
     return sup.finish(res, tier, seed, "exploration", RULE, t0, assumptions=ASSUME, min_cases=100)
